@@ -64,7 +64,7 @@ def oracle(ctx, ops, limit, li, rep):
 def run_c17(ctx):
     ctx.rule = ("sequences of the eight recording operations over 3-4 addresses and limits 0..3: bounded-exhaustive "
                 "to length 3 (quick) / 4 (thorough), random to length 10 000; splits across recorders merged by the "
-                "Reporter; in-process server traffic with the recorder read back; non-trivial = distinct sequence with "
+                "Reporter (IPv4, IPv4-mapped and IPv6 addresses); in-process server traffic with the recorder read back; Responder::send_responses with destinations the kernel refuses (send failures anywhere in a batch); non-trivial = distinct sequence with "
                 "at least one overflow, or a merge of >= 2 snapshots")
     vlib.prepare(ctx)
     r = ctx.rng
@@ -182,12 +182,77 @@ def run_c17(ctx):
                 ctx.violation("property", "recorded totals %s differ from the traffic actually received and sent %s (client_stats=%d)" % (got, tot, s["cfg"][3]),
                               {"cmd": "serve", "cfg": list(s["cfg"]), "seed": s["seed"], "lines": lines, "round": kround})
                 break
+    responder_send_failures(ctx)
     proof_verdict(ctx)
+
+
+def responder_send_failures(ctx):
+    """Responder::send_responses driven directly, with destinations the kernel refuses to send to
+    (127.0.0.1:0 -> EINVAL, 255.255.255.255 without SO_BROADCAST -> EACCES) anywhere in a batch:
+    recorded responses / bytes must equal what the sockets actually received, every refused send is
+    one failed attempt, and nothing else changes (model: send_fails, theorem C17_wiring)."""
+    r = ctx.rng
+    lines = []
+    for k in range(60 if not ctx.thorough else 600):
+        ver = ("Google", "RfcDraft13")[k % 2]
+        nsock = r.choice([1, 2, 4])
+        batches = []
+        for _ in range(r.choice([1, 1, 2, 3])):
+            items = []
+            n = r.choice([1, 2, 3, 4, 7, 8])
+            pat = r.choice(["none", "first", "middle", "last", "random", "all"])
+            for i in range(n):
+                bad = {"none": False, "first": i == 0, "middle": 0 < i < n - 1, "last": i == n - 1,
+                       "random": r.random() < 0.4, "all": True}[pat]
+                dest = r.choice(["F", "B"]) if bad else str(r.randrange(nsock))
+                if ver == "Google":
+                    nonce = bytes(r.getrandbits(8) for _ in range(64)); items.append("%s:%s:-" % (dest, nonce.hex()))
+                else:
+                    nonce = bytes(r.getrandbits(8) for _ in range(32)); items.append("%s:%s:%s" % (dest, nonce.hex(), rt.mk_ietf(nonce, 1024).hex()))
+            batches.append(";".join(items))
+        lines.append("respond %s %s %d %s" % (ver, srvmod.SEED, nsock, "|".join(batches)))
+    impl = vlib.run_impl(lines, per_shard=8)
+    model = vlib.run_model(lines, per_shard=8)
+    ctx.evaluations += len(lines)
+    import re
+    for line, li, lm in zip(lines, impl, model):
+        rep = {"cmd": "respond", "line": line[:30000], "impl": li[:1500], "model": lm[:1500]}
+        if not li.startswith("OK") :
+            ctx.violation("property", "Responder::send_responses did not return normally with an unsendable destination in the batch: " + li[:60], rep); continue
+        bi = re.findall(r"\[(.*?) R=(.*?)\]", li); bm = re.findall(r"\[(.*?) R=(.*?)\]", lm)
+        batches = line.split(" ", 4)[4].split("|")
+        tot_fail = tot_resp = tot_bytes = 0
+        okp = True
+        for (sti, ri), batch in zip(bi, batches):
+            d = dict(t.split("=") for t in sti.split())
+            items = batch.split(";")
+            tot_fail += sum(1 for it in items if it[0] in "FB")
+            got = [x for x in ri.split(",") if x]
+            tot_resp += len(got); tot_bytes += sum(int(x.split(":")[1]) for x in got)
+            if len(got) != sum(1 for it in items if it[0] not in "FB"):
+                ctx.violation("property", "a reply whose send succeeded was not delivered / an extra datagram was delivered (batch %s)" % batch[:80], rep); okp = False; break
+            if (int(d["failed"]), int(d["resp"]), int(d["bytes"])) != (tot_fail, tot_resp, tot_bytes):
+                ctx.violation("property", "recorded failed/responses/bytes = %s/%s/%s but %d sends were refused and the sockets received %d datagrams, %d bytes" % (d["failed"], d["resp"], d["bytes"], tot_fail, tot_resp, tot_bytes), rep); okp = False; break
+        if not okp:
+            continue
+        def canon(bs):
+            out = []
+            for st, rr in bs:
+                d = dict(t.split("=") for t in st.split())
+                out.append((d["failed"], d["rfcresp"], d["classicresp"], d["bytes"], rr))
+            return out
+        if len(bi) != len(bm) or canon(bi) != canon(bm):
+            ctx.violation("tie", "model and implementation disagree on send_responses with refused destinations", rep)
+        else:
+            ctx.traces_validated += 1
+            if tot_fail:
+                ctx.nontriv("respond:" + rt.fnv64(line.encode()))
+    ctx.count("responder_sessions_with_refused_sends", len(lines))
 
 
 def replay(ctx, rep):
     vlib.build_harness(); vlib.gen_tables(); vlib.build_driver()
-    if rep.get("cmd") in ("stats", "merge"):
+    if rep.get("cmd") in ("stats", "merge", "respond"):
         print("impl :", vlib.run_impl([rep["line"]])[0][:2000]); print("model:", vlib.run_model([rep["line"]])[0][:2000])
     else:
         return srvmod.replay(ctx, rep)
